@@ -5,7 +5,7 @@ T = {}
 def P(pid, level, claimed, tech, text, note, expl, assume=(), notdec=(), extra=""):
     T[pid] = dict(level=level, claimed=claimed, tech=tech, text=text, note=note, expl=expl, assume=list(assume), notdec=list(notdec), extra=extra)
 
-KB = "contract-based deductive verification of the compiled kernels (VCs from the Cython/C AST, z3/cvc5) + bounded contract check of the Python layer on the rebuilt code"
+KB = "contract-based deductive verification (sidecar contracts on the real functions - compiled kernels and Python method regions; VCs generated from the Cython / C / Python AST of the current tree, discharged by z3, finite-scope counter-models, cvc5 fallback) + run-time evaluation of the same contracts on the rebuilt code (bounded) + bounded contract check of the Python layer against definition-level oracles"
 
 P("C02", "other", True, KB,
   "Proved (all inputs): the n.s.i. kernels _nsi_cross_transitivity and _mpi_nsi_newman_betweenness equal their weighted nested-sum specifications. Bounded: node-splitting invariance of every nsi_* measure evaluated on the real code with an independent twin-split transformation, exhaustive small graphs + seeded larger ones.",
